@@ -148,6 +148,23 @@ def accepted_language(src, f, rep):
     if not nomatch_checked:
         raise AnalysisError('%s: no `if not %s: raise` after the match' % (f.site, mvar))
     rest = body[i:]
+    # guards placed after the stores still reject (C14.R3 reports the ordering); count them for the language
+    alias = {}
+    for st in rest:
+        if isinstance(st, ast.Assign) and len(st.targets) == 1 and isinstance(st.value, ast.Call) \
+                and isinstance(st.value.func, ast.Attribute) and st.value.func.attr == 'group' and norm(st.value.func.value) == mvar:
+            alias[norm(st.targets[0])] = st.value
+        if isinstance(st, ast.If) and not st.orelse and len(st.body) == 1 and isinstance(st.body[0], ast.Raise):
+            class Sub(ast.NodeTransformer):
+                def visit_Attribute(self, node):
+                    return alias.get(norm(node), node)
+
+                def visit_Name(self, node):
+                    return alias.get(norm(node), node)
+            import copy
+            g2 = copy.deepcopy(st)
+            g2.test = Sub().visit(g2.test)
+            guards.append(g2)
     # groups read anywhere in the function
     groups = []
     for n in ast.walk(f.node):
@@ -419,6 +436,6 @@ def check(src, rep, tier):
     A = rep.guard('C14.R1', r1_accepted_set, src)
     if A is not None:
         rep.guard('C14.R2', r2_lossless, src, A)
-        rep.guard('C14.R3', r3_check_then_commit, src, A)
+    rep.guard('C14.R3', r3_check_then_commit, src, A)
     if tier == 'thorough':
         common.regex_audit(rep, src, 'C14', modules=['debian_support'])
